@@ -26,7 +26,7 @@ CONSTANTS
   BitOps = {"&"}
   ShiftOps = {"<<"}
   UnOps = {"-"}
-  CmpOps = {"==", "!=", "<", ">", "<=", ">="}
+  CmpOps = {"==", "<"}
   MaxDecls = 1
   MaxParams = 0
   MaxMembers = 0
